@@ -469,6 +469,15 @@ func init() {
 							if multi && crit != "iif(family = 'Chu', true, given)" && (wh != "error" || whex != "error") {
 								r.Fail("criteria-by-position|multi-item-criterion-accepted-by-where", w)
 							}
+							// the same operand inside a projection: the operator's error is the evaluation's error, whichever item raises it
+							if multi && (strings.Contains(crit, " and ") || strings.Contains(crit, " or ")) {
+								for _, proj := range []string{"Patient.name.select(" + crit + ")", "Patient.name.select((" + crit + ").not())", "Patient.name.select(given.not())", "Patient.name.select(iif(given, 'y', 'n'))", "Patient.name.select(given xor true)", "Patient.name.select(true implies given)"} {
+									if got := run(proj); got != "error" {
+										w2 := core.W{"order_of_names": fmt.Sprint(pm), "src": proj, "got": got, "want": "error (an operand of more than one item)"}
+										r.Fail("criteria-by-position|multi-item-operand-accepted-inside-select", w2)
+									}
+								}
+							}
 						}
 					}
 				}},
